@@ -25,6 +25,10 @@ def run(ck):
             continue
         rng = ck.rng("case", i)
         profile = rng.choice(["fifo", "per-server-fifo", "free"])
+        if i % 5 == 2:
+            with ck.watchdog(180, "cut case %d" % i):
+                cut_between_segments(ck, rng, i, profile)
+            continue
         forged = (i % 4 == 0)
         g = None
         try:
@@ -118,4 +122,84 @@ def run(ck):
         if ck.tier == "quick" and ck.evaluations >= 1500:
             break
     ck.require_monitor("termination-oracle")
-    ck.require_reach("completed-ok", "completed-err", "follow-up-after-failure")
+    ck.require_reach("completed-ok", "completed-err", "follow-up-after-failure", "connection-cut-between-segments")
+
+
+def cut_between_segments(ck, rng, i, profile):
+    """Directed history: a multi-segment file; the moment the consumer is handed a segment (no block request is
+    outstanding, the next segment has not been asked for yet) some or all share-holding servers lose their connection
+    or start failing every read, possibly with requests of theirs still in flight.  Every call is answered or failed,
+    so each read must call back or errback."""
+    from vf.grid import VGrid
+    from vf import imm
+    from allmydata import uri
+    k = rng.randint(1, 3)
+    n = rng.randint(k, k + 3)
+    # shares larger than the downloader's first speculative read (~2 kB), so that later reads are still in flight
+    # when a segment is delivered
+    segsize = rng.choice([128, 1024, 1024, 4096])
+    nseg = rng.randint(2, 6)
+    size = max(56, segsize * nseg - rng.randint(0, 3))
+    nservers = rng.randint(1, n + 1)
+    data = imm.gen_data(rng, size)
+    try:
+        cap, shares = imm.honest_shares(max(nservers, 1), dict(k=k, n=n, segsize=segsize), data, rng.randbytes(16))
+    except RuntimeError:
+        ck.observe("scratch-upload-failed")
+        return
+    g = VGrid(nservers=nservers, seed=rng.getrandbits(32), profile=profile, keep_log=False)
+    try:
+        si = uri.from_string(cap).get_storage_index()
+        layout = rng.choice(["one-server", "spread", "two-servers"])
+        place = {sh: (0 if layout == "one-server" else sh % nservers if layout == "spread" else sh % min(2, nservers))
+                 for sh in shares}
+        imm.install_shares(g, si, shares, place)
+        holders = sorted(set(place.values()))
+        victims = holders if rng.random() < .6 else rng.sample(holders, rng.randint(1, len(holders)))
+        how = rng.choice(["disconnect", "disconnect", "raise-all-reads"])
+        after = rng.randint(1, nseg)          # cut when the consumer receives its `after`-th chunk
+        c = g.make_client(k=k, happy=1, n=n, max_segment_size=segsize)
+        node = c.create_node_from_uri(cap)
+        state = {"writes": 0, "cut": False}
+
+        def on_write(cons, chunk):
+            state["writes"] += 1
+            if state["writes"] == after and not state["cut"]:
+                state["cut"] = True
+                for s in victims:
+                    if how == "disconnect":
+                        g.servers[s].disconnect()
+                    else:
+                        g.servers[s].add_fault("raise", method="read")
+        reads = []
+        for _ in range(rng.randint(1, 2)):
+            cons = imm.RecordingConsumer(on_write)
+            box = []
+            node.read(cons, 0, None).addBoth(box.append)
+            reads.append(box)
+        st = g.sched.run(until=lambda: all(reads), max_steps=200000, horizon=4 * 3600.0)
+        follow = []
+        if all(reads):
+            box = []
+            node.read(imm.RecordingConsumer(), rng.randint(0, size - 1), None).addBoth(box.append)
+            follow.append(box)
+            st = g.sched.run(until=lambda: all(follow), max_steps=200000, horizon=4 * 3600.0)
+        ck.mon("termination-oracle", len(reads) + len(follow))
+        w = dict(kind="cut-between-segments", k=k, n=n, size=size, segsize=segsize, nservers=nservers, layout=layout,
+                 victims=victims, how=how, after_chunk=after, cut=state["cut"], profile=profile, sched=st,
+                 pending=[not b for b in reads + follow])
+        if state["cut"]:
+            ck.hit("connection-cut-between-segments")
+        for b in reads + follow:
+            if b:
+                isf = hasattr(b[0], "type") and hasattr(b[0], "value")
+                ck.hit("completed-err" if isf else "completed-ok")
+        if not all(reads + follow):
+            if st == "steps":
+                ck.violation("read-livelock", "a read consumed 200000 scheduler steps without completing", w)
+            else:
+                ck.violation("read-never-completes", "every queue is empty and all timers fired, yet a read has neither "
+                             "called back nor errbacked (servers %s %s after chunk %d)" % (victims, how, after), w)
+        ck.case("cut", key=repr(w), nontrivial=True, sample=w)
+    finally:
+        g.close()
